@@ -7,7 +7,7 @@ import proto, gen, implutil
 THEOREMS = ['C20_offset', 'C20_markers_sound', 'C20_markers_complete', 'C20_mask_sound', 'C20_mask_complete', 'C20_truncation_counterexample', 'C20_routing']
 RULE = ("cycle tables of both centrings from generated signals (fs in {100, 128, 250, 1000}) x x-limits None or on the sample grid: random windows, window edges exactly on a "
         "side extremum / centre extremum, windows without a complete cycle, grid times whose product with fs is not exact in float64 (0.29 s at 100 Hz) x plot_only_result x interp x "
-        "the cyclepoint-kind switches; plot_cyclepoints_df, plot_burst_detect_summary (also through Bycycle.plot) and plot_burst_detect_param under the Agg backend, observed "
+        "the cyclepoint-kind switches; plot_cyclepoints_df, plot_burst_detect_summary (also through Bycycle.plot, half of those on an object that has drawn before and whose edges were recomputed since) and plot_burst_detect_param under the Agg backend, observed "
         "through Line2D data; judge: every marker is (sample / fs, plotted value at that sample) of a genuine cyclepoint of its kind and every cyclepoint strictly inside the view "
         "is drawn; the highlighted trace contains only samples of burst cycles and all samples of burst cycles entirely inside the view; each parameter panel shows the "
         "per-cycle values (at the centres for interp) of the cycles inside the view and the threshold line; distinct = distinct (table, window, switches); "
@@ -164,6 +164,19 @@ def evaluate(ctx, cases):
             elif c['what'] in ('summary', 'object'):
                 if c['what'] == 'object':
                     bm = Bycycle(center_extrema=c['center'], thresholds=dict(th)); bm.load(df, sig, fs, (5.6, 10.4))
+                    if c['seed'] % 2 == 0 and c['center'] in ('peak', 'trough'):
+                        # an object with a HISTORY: it has already drawn its table once, then its burst edges were recomputed with lowered thresholds
+                        # (labels change, sample columns do not): the plot that follows must draw the CURRENT table
+                        try:
+                            implutil.quiet(bm.plot, xlim=xlim, plot_only_results=c['only'], interp=c['interp']); plt.close('all')
+                            for red in (0.3, 0.1, None):
+                                try:
+                                    implutil.quiet(bm.recompute_edges, red); break
+                                except ValueError:       # (a reduction that takes a threshold below 0 is refused)
+                                    continue
+                            df = bm.df_features
+                        except Exception as e:
+                            msg = 'plot / recompute_edges history raised %s' % type(e).__name__
                     implutil.quiet(bm.plot, xlim=xlim, plot_only_results=c['only'], interp=c['interp'])
                 else:
                     # (a third of the summaries receive the recording as a pandas Series with a 1-based index: markers are positions, not labels)
